@@ -299,6 +299,11 @@ def runs(ctx, report):
             bad.append({"why": why, "events": evs, "tests": [f"{t}={b}" for t, b in tests][:4]})
     if n_iter < 3:
         raise AnalysisError(f"merge_concurrent_captions: only {n_iter} per-caption paths extracted (expected first / same times / other times)")
+    # every language is processed: nothing leaves the routine from inside the per-language loop
+    exits = [short(n) for lp in walk_no_nested(fn.node) if isinstance(lp, ast.For) and lp is not inner
+             and inner in list(walk_no_nested(lp)) for n in walk_no_nested(lp) if isinstance(n, (ast.Return, ast.Break))]
+    report.check(not exits, "R-LOOP", fn, "every language is merged (no return or break inside the loop over languages)",
+                 {"exits_inside_the_language_loop": exits}, "2")
     final = False
     for items in paths:
         ends = [i for i, x in enumerate(items) if x[0] == "iter-end"]
